@@ -29,7 +29,7 @@ def run(pid, tier):
         out.inconclusive.append('vacuity canary harness %s did not fail as required (status %s): the precondition of the step harnesses '
                                 'may be unsatisfiable' % (unit_uf.CANARY, canary.get('status')))
     k['failures'] = [f for f in k['failures'] if f['harness'] != unit_uf.CANARY]
-    report_failures(out, unit, 'ufcheck')
+    report_failures(out, unit, 'ufcheck', tool_limit_fallback=True)
     hs = [h for h in k['harnesses'] if h != unit_uf.CANARY]
     ok = [h for h in hs if kres.get(h, {}).get('status') == 'SUCCESSFUL']
     complete = [h for h in hs if h in unit_uf.KANI_COMPLETE]
